@@ -61,11 +61,27 @@ KINDS = [
 KIND_PATH = {k: p for k, p, _ in KINDS}
 IN_STATEMENT = {k: s for k, _, s in KINDS}
 
+# `<mod>@earlier`: the same modification, but the path ends up with an mtime one day EARLIER than
+# the one wild recorded (cache-restored / `cp -p` / `rsync -t` / `tar x` files, or an overwrite
+# followed by restoring an old timestamp). `<mod>@equal`: same size, different content, mtime
+# exactly equal to the recorded one - counted separately, never judged (only ctime / inode /
+# content would reveal it).
 MODS = ["rewrite", "append", "truncate-tail", "truncate-zero", "rename-replace", "touch",
-        "replace-restore"]
+        "replace-restore", "rewrite@earlier", "append@earlier", "rename-replace@earlier",
+        "rewrite@equal", "rename-replace@equal"]
 MOD_CLASS = {"rewrite": "content-change", "append": "content-change",
              "truncate-tail": "content-change", "truncate-zero": "truncate-zero",
              "rename-replace": "replaced", "touch": "mtime-only", "replace-restore": "mtime-only"}
+EARLIER_S = 86400
+
+
+def mod_base(mod):
+    return mod.partition("@")[0]
+
+
+def mod_mtime(mod):
+    """'later' (the modification happens now, the inputs are one hour old), 'earlier' or 'equal'."""
+    return mod.partition("@")[2] or "later"
 
 LINK_ARGS = ["main.o", "obj.o", "reg.a", "thin.a", "in.ld", "-T", "t.ld", "-L", "L", "-lz1",
              "libso.so", "--version-script=v.txt", "--dynamic-list=d.txt", "-o", "out"]
@@ -138,10 +154,16 @@ def variant(data):
     return out
 
 
-def modify(path, mod):
-    """Apply modification `mod` to path. Returns a short description."""
+def modify(path, mod, t0=None):
+    """Apply modification `mod` to path; t0 is the mtime wild recorded (for @earlier / @equal)."""
     with open(path, "rb") as f:
         orig = f.read()
+    when = mod_mtime(mod)
+    mod = mod_base(mod)
+    stamp = {"later": None, "earlier": (t0 - EARLIER_S, t0 - EARLIER_S) if t0 else None,
+             "equal": (t0, t0)}[when]
+    if when != "later":
+        assert t0 is not None and mod in ("rewrite", "append", "rename-replace")
     if mod == "rewrite":
         with open(path, "r+b") as f:
             f.write(variant(orig))
@@ -159,6 +181,9 @@ def modify(path, mod):
         tmp = path + ".new"
         with open(tmp, "wb") as f:
             f.write(variant(orig))
+        if stamp:
+            # The replacement file carries its old timestamp with it (cp -p, cache restore).
+            os.utime(tmp, stamp)
         os.rename(tmp, path)
     elif mod == "touch":
         os.utime(path, None)
@@ -170,6 +195,8 @@ def modify(path, mod):
             f.write(orig)
     else:
         raise RuntimeError(mod)
+    if stamp and mod != "rename-replace":
+        os.utime(path, stamp)
 
 
 def parse_log(path):
@@ -282,12 +309,22 @@ def run_one(spec):
         res["mapped"] = any(l.endswith(" " + real) for l in maps.splitlines())
         fd = os.open(log, os.O_WRONLY | os.O_APPEND)
         os.write(fd, b"HARNESS:mod-begin\n")
-        modify(target, spec["mod"])
+        with open(target, "rb") as f:
+            before = f.read()
+        modify(target, spec["mod"], t0)
         st = os.stat(target)
         os.write(fd, b"HARNESS:mod-end\n")
         os.close(fd)
-        if abs(st.st_mtime - t0) < 1000:
-            res["status"] = "machinery: modification did not move the mtime"
+        when = mod_mtime(spec["mod"])
+        with open(target, "rb") as f:
+            after = f.read()
+        if when == "later" and not st.st_mtime > t0 + 1000:
+            res["status"] = "machinery: modification did not move the mtime forward"
+        elif when == "earlier" and not (st.st_mtime < t0 - 1000 and after != before):
+            res["status"] = "machinery: @earlier did not produce changed content + older mtime"
+        elif when == "equal" and not (st.st_mtime == t0 and after != before and
+                                      len(after) == len(before)):
+            res["status"] = "machinery: @equal did not produce same size + mtime, new content"
         with open(os.path.join(pd, "go"), "w"):
             pass
         try:
@@ -382,6 +419,9 @@ FILES_DOC = {
     "reg.a": "ar rcD reg.a ar.o unused.o", "thin.a": "ar rcTD thin.a thin.o",
     "L/libz1.a": "ar rcD L/libz1.a lib.o", "libso.so": "ld -shared -o libso.so so.o",
     "in.ld": IN_LD, "t.ld": T_LD, "v.txt": V_TXT, "d.txt": D_TXT,
+    "modifications": "'<mod>@earlier' = the modification followed by setting the path's mtime to "
+                     "one day before the original mtime (rename-replace: the new file already "
+                     "carries that mtime); '<mod>@equal' = mtime set back to exactly the original",
     "padding": f"every .o/.so gets {PAD} trailing NUL bytes, every text file {PAD} newlines",
 }
 
@@ -441,7 +481,8 @@ def main():
         missing = [p for p in FORK_POINTS if p not in fork_all]
         if missing:
             chk.machinery(f"fork-mode instants missing: {missing}")
-        fork_mods = MODS if chk.thorough else ["rewrite", "truncate-zero", "rename-replace", "touch"]
+        fork_mods = [m for m in MODS if mod_mtime(m) != "equal"] if chk.thorough else ["rewrite", "truncate-zero", "rename-replace", "touch",
+                                               "rewrite@earlier", "rename-replace@earlier"]
         specs = []
         for kind, _, _ in KINDS:
             for mod in fork_mods:
@@ -455,6 +496,9 @@ def main():
             for n, pt in enumerate(use):
                 for kind, _, _ in KINDS:
                     for mod in MODS:
+                        # The counted-not-judged @equal variants only at the quick instants.
+                        if mod_mtime(mod) == "equal" and pt not in QUICK_POINTS:
+                            continue
                         grid.append(((n % 16, n), dict(kind=kind, mod=mod, point=pt,
                                                        threads=threads, fork=fork)))
         grid.sort(key=lambda x: x[0])
@@ -476,6 +520,8 @@ def main():
     in_scope = 0
     samples = []
     extra_undetected = {}
+    equal_undetected = {}
+    other_errors = []
     post_verify_rc = {}
     for r in results:
         s = specs[r["i"]]
@@ -488,7 +534,10 @@ def main():
             bump("not_evaluated_machine_too_slow")
             continue
         bump("scope:" + r["scope"])
-        cls = MOD_CLASS[s["mod"]]
+        cls = MOD_CLASS[mod_base(s["mod"])]
+        when = mod_mtime(s["mod"])
+        if when != "later":
+            cls += ":mtime-" + when
         if r["scope"] == "post-verify":
             k = "exit0" if r["rc"] == 0 else "nonzero"
             post_verify_rc[k] = post_verify_rc.get(k, 0) + 1
@@ -504,10 +553,18 @@ def main():
         else:
             outcome = "other-error"
         bump(f"outcome:{cls}:{outcome}")
+        if outcome == "other-error" and len(other_errors) < 6:
+            other_errors.append({k: s[k] for k in ("kind", "mod", "point", "threads", "fork")} |
+                                {"rc": r["rc"], "stderr": r["err"][-200:]})
         if len(samples) < 6 or (r["rc"] == 0 and len(samples) < 12):
             samples.append({k: s[k] for k in ("kind", "mod", "point", "threads", "fork")} |
                            {"rc": r["rc"], "stderr": r["err"][-120:], "scope": r["scope"]})
         if r["rc"] != 0:
+            continue
+        if when == "equal":
+            # Same size, same mtime, new content: counted, not judged.
+            k = ("in-statement-kinds" if IN_STATEMENT[s["kind"]] else "extra-kinds")
+            equal_undetected[k] = equal_undetected.get(k, 0) + 1
             continue
         if not IN_STATEMENT[s["kind"]]:
             extra_undetected[s["kind"]] = extra_undetected.get(s["kind"], 0) + 1
@@ -550,7 +607,12 @@ def main():
         "counts": dict(sorted(counts.items())),
         "post_verify_modifications_outside_statement": post_verify_rc,
         "extra_class_not_in_statement_exit0": extra_undetected,
+        "mtime_equal_same_size_new_content_exit0_counted_not_judged": equal_undetected,
         "samples": samples,
+        "other_error_samples": other_errors,
+        "thinned": "the counted-not-judged @equal modifications run only at the 5 quick instants "
+                   "(no fork mode); everything else is the full product" if chk.thorough else
+                   "5 instants; fork mode at 2 instants for 6 modifications",
     }
     chk.assumptions = [
         "pausing is done at phase points that every probe run passed on the main thread (an "
@@ -559,7 +621,10 @@ def main():
         "log, not assumed",
         "a file that appears in /proc/<pid>/maps of the paused wild has had its mtime recorded "
         "(FileData::open reads the mtime before mmap)",
-        "tmpfs (/dev/shm) timestamps; all inputs carry an mtime one hour in the past",
+        "tmpfs (/dev/shm) timestamps; all inputs carry an mtime one hour in the past; 'later' "
+        "modifications leave mtime = now, '@earlier' ones leave recorded - 1 day, '@equal' ones "
+        "exactly the recorded mtime (same size, new content: counted, not judged - only ctime, "
+        "inode or content could reveal it)",
         "threads=1 means --threads=1 with RAYON_NUM_THREADS=1 (a truly single-threaded link); "
         "threads=4 means --threads=4",
         "version script and dynamic list are counted but not judged (the statement lists object, "
